@@ -347,7 +347,7 @@ def finish(spec, tier, seed, t0, results=None, out=None, inconclusive=None, vali
             "paths_by_status": bystatus,
             "obligations": asserts,
             "assertions_constant_true_on_their_path": trivial,
-            "discharged": asserts - sum(1 for _ in confirmed),
+            "discharged": max(0, asserts - sum(1 for v in confirmed if v.get("kind") == "assert")),
             "witnesses_replayed": wit_total,
             "distinct_outcome_classes": obs_classes,
             "functions_encoded": flamego_fns,
